@@ -16,8 +16,54 @@ package server
 //@ # the in-place rejection: twelve octets, ID echoed, QR set, opcode and RD echoed, RCODE 4 (NOTIMP) or 1 (FORMERR), counts zero
 //@ func (*udpJob).rejectInPlace
 //@   arith bv
-//@   requires j != nil
+//@   requires j != nil && 0 <= j.txLen && j.txLen <= len(j.tx) && 0 <= j.pktinfoLen && j.pktinfoLen <= len(j.pktinfo)
 //@   assert at call (*server.udpJob).Write#1: len(arg1) == 12 && arg1[0] == j.rx[0] && arg1[1] == j.rx[1]
 //@   assert at call (*server.udpJob).Write#1: arg1[2] == 128 | (((j.rx[2] >> 3) & 15) << 3) | (j.rx[2] & 1)
 //@   assert at call (*server.udpJob).Write#1: arg1[3] == ite(verdict == acceptNotImplemented, uint8(4), uint8(1))
 //@   assert at call (*server.udpJob).Write#1: arg1[4] == 0 && arg1[5] == 0 && arg1[6] == 0 && arg1[7] == 0 && arg1[8] == 0 && arg1[9] == 0 && arg1[10] == 0 && arg1[11] == 0
+//@
+//@ # ---- C10: on a stream connection every staged reply is whole: a 2-octet length prefix followed by the complete
+//@ # payload, inside the drain buffer; the count of staged octets stays within the buffer
+//@ func (*tcpStream).arm
+//@   requires s != nil
+//@   modifies s.armed
+//@ func (*tcpStream).beforeWrite
+//@   requires s != nil
+//@   modifies s.armed, s.deadline
+//@ func (*tcpStream).flush
+//@   requires s != nil && 0 <= s.held && s.held <= 8192
+//@   modifies s.held, s.werr, s.armed
+//@   ensures result == nil ==> s.held == 0
+//@   ensures s.held == 0 || s.held == old(s.held)
+//@
+//@ func (*tcpStream).stage
+//@   requires s != nil && 0 <= s.held && s.held <= 8192
+//@   assert at copy#1: len(src) == len(payload) && len(src) <= len(dst)
+//@   assert at call (encoding/binary.bigEndian).PutUint16#1: arg2 == uint16(len(payload)) && len(arg1) >= 2 + len(payload)
+//@   ensures 0 <= s.held && s.held <= 8192
+//@
+//@ # ---- C10: a UDP reply is staged whole in the job's OWN transmit buffer (never more than the buffer holds, so a
+//@ # later send can never run past it into stale bytes) and an unstaged send goes to the job's own client address
+//@ func (*udpJob).Write
+//@   requires j != nil && 0 <= j.txLen && j.txLen <= len(j.tx) && 0 <= j.pktinfoLen && j.pktinfoLen <= len(j.pktinfo)
+//@   assert at copy#1: len(src) == len(b) && len(src) <= len(dst)
+//@   assert at call (*net.UDPConn).WriteMsgUDPAddrPort#1: arg1 == b && arg3 == j.raddr && len(b) <= len(j.tx)
+//@   assert at call (*net.UDPConn).WriteMsgUDPAddrPort#2: arg1 == b && arg3 == j.raddr && len(b) <= len(j.tx)
+//@   assert at return: j.written && 0 <= j.txLen && j.txLen <= len(j.tx)
+//@   assert at return#2: result1 == nil && result0 == len(b) && j.txLen == len(b)
+//@   assert at return#1: result1 != nil && j.txLen == old(j.txLen)
+//@
+//@ # single-owner state machine: a transition is only legal from the state the caller claims to own
+//@ func (*udpJob).transition
+//@   requires j != nil
+//@   modifies j.state
+//@   ensures old(j.state) == from && j.state == to
+//@   note an ownership violation panics (the explicit panic is the refusal; reaching it is excluded by the ensures)
+//@
+//@ # a job is parked only after it was scrubbed: no staged reply length, no request length, no pktinfo, not written,
+//@ # not replay, state free — so a later request that ends without a reply cannot send the previous client's bytes
+//@ func (*udpJob).release
+//@   abstract
+//@   nosafety all pre
+//@   assert at call (*server.slabCache[server.udpJob]).put#1: arg2 == j && j.txLen == 0 && j.rxLen == 0 && j.pktinfoLen == 0 && !j.written && !j.replay && j.state == udpJobFree
+//@   assert at call (*sync/atomic.Int64).Add#1: arg1 == -1 && calls("(*server.slabCache[server.udpJob]).put") == 1
